@@ -30,7 +30,7 @@ struct Action* g_heap_removed_action;
 #define FIN(x) __CPROVER_isfinited(x)
 #define PREC_OK                                                                                                        \
   (FIN(sg_precision_timing) && FIN(sg_precision_workamount) && sg_precision_timing >= 0.0 &&                           \
-   sg_precision_workamount >= 0.0 && NO_MAX_DURATION == -1.0)
+   sg_precision_workamount >= 0.0 && NO_MAX_DURATION == VFI_NO_MAX_DURATION && VFI_NO_MAX_DURATION == -1.0)
 #define THR_WORK (sg_precision_workamount * sg_precision_timing) /* clamp threshold of remains_ (as in the source) */
 #define IS_ACTION(p) ((p) == &CPU_A || (p) == &NET_A)
 #define WF_ACTION(a) ((a).model_ == &g_model && ((a).variable_ == NULL || (a).variable_ == &g_var))
